@@ -65,20 +65,20 @@ theorem wpte_lex (k1 k2 : HKind) (s t : SSt) (h : s.elemStack = t.elemStack) :
   | true :: r => simp [h]
   | false :: r => simp [lex_cons, lexTok]
 
-theorem step_lex (cc1 cc2 : CodeCfg) (c1 c2 : SerCfg) (k1 k2 : HKind) (s t : SSt) (e1 e2 : Ev)
+theorem stepCore_lex (cc1 cc2 : CodeCfg) (c1 c2 : SerCfg) (k1 k2 : HKind) (s t : SSt) (e1 e2 : Ev)
     (he : EvSim e1 e2) (h : s.elemStack = t.elemStack) :
-    (step cc1 c1 k1 s e1).1.elemStack = (step cc2 c2 k2 t e2).1.elemStack ∧
-    lex (step cc1 c1 k1 s e1).2 = lex (step cc2 c2 k2 t e2).2 := by
+    (stepCore cc1 c1 k1 s e1).1.elemStack = (stepCore cc2 c2 k2 t e2).1.elemStack ∧
+    lex (stepCore cc1 c1 k1 s e1).2 = lex (stepCore cc2 c2 k2 t e2).2 := by
   have W := fun (s t : SSt) (h : s.elemStack = t.elemStack) => wpte_lex k1 k2 s t h
   cases e1 <;> cases e2 <;> simp only [EvSim, reduceCtorEq] at he <;> try (cases he)
   all_goals first
-    | (simp only [step, startElement]
+    | (simp only [stepCore, startElement]
        have A := W (if s.needDoctype then { s with needDoctype := false } else s)
                    (if t.needDoctype then { t with needDoctype := false } else t)
                    (by cases s.needDoctype <;> cases t.needDoctype <;> simp [h])
        cases hs : s.needDoctype <;> cases ht : t.needDoctype <;> simp only [hs, ht, Bool.false_eq_true, if_false, if_true] at A ⊢ <;>
          obtain ⟨a1, _, _, a4⟩ := A <;> simp [a1, a4, lex_cons, lexTok])
-    | (simp only [step, endElement]
+    | (simp only [stepCore, endElement]
        rw [h]
        generalize t.elemStack = st
        match st with
@@ -86,29 +86,54 @@ theorem step_lex (cc1 cc2 : CodeCfg) (c1 c2 : SerCfg) (k1 k2 : HKind) (s t : SSt
        | true :: r => simp [lex_cons, lexTok]
        | false :: r => simp [lex_cons, lexTok])
     | (obtain ⟨a1, _, _, a4⟩ := W s t h
-       simp only [step, characters, cdata, charactersRaw, comment, procInstr]
+       simp only [stepCore, characters, cdata, charactersRaw, comment, procInstr]
        (try split) <;> simp_all [lex_cons, lexTok])
 
+theorem step_lex (cc1 cc2 : CodeCfg) (c1 c2 : SerCfg) (k1 k2 : HKind) (s t : SSt) (e1 e2 : Ev)
+    (he : EvSim e1 e2) (h : s.elemStack = t.elemStack) (hf : s.nextIsRaw = t.nextIsRaw) :
+    (step cc1 c1 k1 s e1).1.elemStack = (step cc2 c2 k2 t e2).1.elemStack ∧
+    (step cc1 c1 k1 s e1).1.nextIsRaw = (step cc2 c2 k2 t e2).1.nextIsRaw ∧
+    lex (step cc1 c1 k1 s e1).2 = lex (step cc2 c2 k2 t e2).2 := by
+  have core := fun (s t : SSt) (e1 e2 : Ev) (he : EvSim e1 e2) (h : s.elemStack = t.elemStack)
+      (hf : s.nextIsRaw = t.nextIsRaw) =>
+    (show (stepCore cc1 c1 k1 s e1).1.elemStack = (stepCore cc2 c2 k2 t e2).1.elemStack ∧
+        (stepCore cc1 c1 k1 s e1).1.nextIsRaw = (stepCore cc2 c2 k2 t e2).1.nextIsRaw ∧
+        lex (stepCore cc1 c1 k1 s e1).2 = lex (stepCore cc2 c2 k2 t e2).2 from
+      ⟨(stepCore_lex cc1 cc2 c1 c2 k1 k2 s t e1 e2 he h).1, by rw [stepCore_nextIsRaw, stepCore_nextIsRaw, hf],
+       (stepCore_lex cc1 cc2 c1 c2 k1 k2 s t e1 e2 he h).2⟩)
+  cases e1 <;> cases e2 <;> simp only [EvSim, reduceCtorEq] at he <;> try (cases he)
+  all_goals
+    simp only [step, hf]
+    repeat' split
+  all_goals first
+    | exact ⟨h, hf, rfl⟩
+    | exact ⟨h, rfl, rfl⟩
+    | exact core _ _ _ _ (EvSim.refl _) h hf
+    | exact core _ _ _ _ (EvSim.refl _) h rfl
+    | exact core _ _ _ _ (by simp [EvSim]) h hf
+
 theorem runFrom_lex (cc1 cc2 : CodeCfg) (c1 c2 : SerCfg) (k1 k2 : HKind) (es1 es2 : List Ev)
-    (hes : EvsSim es1 es2) (s t : SSt) (h : s.elemStack = t.elemStack) :
+    (hes : EvsSim es1 es2) (s t : SSt) (h : s.elemStack = t.elemStack) (hf : s.nextIsRaw = t.nextIsRaw) :
     lex (runFrom cc1 c1 k1 s es1).2 = lex (runFrom cc2 c2 k2 t es2).2 := by
   induction hes generalizing s t with
   | nil => rfl
   | cons he _ ih =>
     simp only [runFrom]
-    obtain ⟨a1, a2⟩ := step_lex cc1 cc2 c1 c2 k1 k2 s t _ _ he h
-    simp [a2, ih _ _ a1]
+    obtain ⟨a1, a1f, a2⟩ := step_lex cc1 cc2 c1 c2 k1 k2 s t _ _ he h hf
+    simp [a2, ih _ _ a1 a1f]
 
 theorem serialize_lex (cc1 cc2 : CodeCfg) (c1 c2 : SerCfg) (k1 k2 : HKind) (es1 es2 : List Ev)
     (hes : EvsSim es1 es2) :
     lex (serialize cc1 c1 k1 es1) = lex (serialize cc2 c2 k2 es2) := by
-  have hd : ∀ (c : SerCfg) (k : HKind), lex (startDocument c k).2 = [] ∧ (startDocument c k).1.elemStack = [] := by
+  have hd : ∀ (c : SerCfg) (k : HKind), lex (startDocument c k).2 = [] ∧ (startDocument c k).1.elemStack = [] ∧
+      (startDocument c k).1.nextIsRaw = false := by
     intro c k
     unfold startDocument
     cases c.shouldWriteXMLHeader <;> cases c.doctypeSystem.isEmpty <;> cases k <;>
       simp [lex_cons, lexTok, HKind.lineSep]
   simp only [serialize, body, lex_append, (hd c1 k1).1, (hd c2 k2).1, endDocument, lex_indent, List.nil_append, List.append_nil]
-  exact runFrom_lex cc1 cc2 c1 c2 k1 k2 es1 es2 hes _ _ (by rw [(hd c1 k1).2, (hd c2 k2).2])
+  exact runFrom_lex cc1 cc2 c1 c2 k1 k2 es1 es2 hes _ _ (by rw [(hd c1 k1).2.1, (hd c2 k2).2.1])
+    (by rw [(hd c1 k1).2.2, (hd c2 k2).2.2])
 
 /-! ### engine events of a tree under two cdata-section-elements lists -/
 
@@ -124,6 +149,10 @@ theorem nodeEvents_sim (cd1 cd2 : List Str) (b1 b2 : Bool) : (t : Node) →
     refine EvsSim.cons ?_ EvsSim.nil
     cases b1 <;> cases b2 <;> simp [EvSim]
   | .rawText t => by simp only [nodeEvents]; exact EvsSim.cons (EvSim.refl _) EvsSim.nil
+  | .rtfRawText t => by
+    simp only [nodeEvents]
+    refine EvsSim.cons (EvSim.refl _) (EvsSim.cons ?_ EvsSim.nil)
+    cases b1 <;> cases b2 <;> simp [EvSim]
   | .comment t => by simp only [nodeEvents]; exact EvsSim.cons (EvSim.refl _) EvsSim.nil
   | .pi t d => by simp only [nodeEvents]; exact EvsSim.cons (EvSim.refl _) EvsSim.nil
 theorem kidsEvents_sim (cd1 cd2 : List Str) (b1 b2 : Bool) : (ts : List Node) →
@@ -147,6 +176,7 @@ theorem textMethod_node (cd : List Str) (b : Bool) : (t : Node) → textMethod (
     simp only [nodeEvents, textMethod, textMethod_append, Node.stringValue, textMethod_kids cd _ kids, List.append_nil]
   | .text t => by cases b <;> simp [nodeEvents, textMethod, Node.stringValue]
   | .rawText t => by simp [nodeEvents, textMethod, Node.stringValue]
+  | .rtfRawText t => by cases b <;> simp [nodeEvents, textMethod, Node.stringValue]
   | .comment t => by simp [nodeEvents, textMethod, Node.stringValue]
   | .pi t d => by simp [nodeEvents, textMethod, Node.stringValue]
 theorem textMethod_kids (cd : List Str) (b : Bool) : (ts : List Node) → textMethod (kidsEvents cd b ts) = stringValueL ts
